@@ -3,7 +3,12 @@ rewrite_as_sin / rewrite_as_cos, expand_as_exp, trig_to_sqrt, conjugate).
 Model: coq/C36/RewriteModel.v (NumerDenomVisitor, handle_minus / could_extract_minus, RealImagVisitor on its
 arithmetic fragment with pow_number -- computed as TREES through the arithmetic model Expr/Arith.v; the rule
 tables of rewrite.cpp on TransformVisitor, trig_to_sqrt and conjugate -- computed as RECIPES of constructor
-calls over sub-objects of the input).  Theorems: coq/C36/P_*.v.
+calls over sub-objects of the input; expand_as_exp = NotImplementedError for every class).
+Theorems (coq/C36/P_*.v): numer_denom_sound_partial (any field, rule by rule, premises = nd_semantics),
+numer_denom_int_powers (power laws for integer exponents in any field, Complex rule exact in Q), numer_denom_refuted
+(sqrt(x/(y-2))), rewrite_rules_sound (22 rules at every complex point), conjugate_rules, real_imag_rules (tan / cot /
+tanh / coth identities, refutation of the code's cot rule), pow_number_sound (binary powering, all n < 2^64),
+trig_to_sqrt_rules (24 rules on the principal real domains), complex_functions_real, nonvacuous.
 Tie: recipes of public API calls -> harness/c36_driver.cpp (mode A) prints the dump of e and the library's
 numerator/denominator, real/imaginary parts and expand_as_exp answer -> the extracted model reads the dump and
 prints its trees (compared as text, Add dictionaries sorted) and its recipes -> the driver (mode V) evaluates
@@ -94,7 +99,7 @@ def ratfun(rng, depth):
         # symbolic exponents: handle_minus on Mul / Add / Symbol exponents
         e = rng.choice(["y", "(neg y)", "(sub y (i 1))", "(sub (i 1) y)", "(mul (i -2) z)", "(sub y z)", "(sub z y)",
                         "(neg (add y z))", "(mul (q -1 2) y)", "(mul I y)", "(mul (c 0 1 -1 1) y)", "(add (neg y) (q 1 2))"])
-        return "(pow %s %s)" % (a, e)
+        return "(pow %s %s)" % ("x" if a == "(i 0)" else a, e)
     # shapes with structure: common denominators
     d = rng.choice(SYMS)
     d2 = rng.choice(SYMS)
@@ -196,7 +201,8 @@ CORPUS = [
     "(pow (i 2) I)", "(mul (pow x (q 1 2)) (pow y (q -1 2)))", "(pow (add x (q 1 2)) (i -1))",
     # the known findings (non-integer power of a quotient; real-based power with non-real value)
     "(sqrt (div x (sub y (i 2))))", "(pow (div x (sub y (i 3))) (q 1 3))",
-    "(pow (i -1) (q 1 3))", "(exp (mul I (div pi (i 3))))", "(pow pi I)",
+    "(pow (i -1) (q 1 3))", "(exp (mul I (div pi (i 3))))", "(pow pi I)", "(pow (add (neg pi) (mul pi I)) (q 1 2))",
+    "(f1 cot (add (i 2) I))",
     # as_real_imag: arithmetic fragment
     "(mul (add (add pi E) I) (c 2 1 1 1))", "(add (mul (add (add pi E) I) (c 2 1 1 1)) (sqrt (i 2)))",
     "(pow (add pi I) (i 5))", "(pow (add pi I) (i -3))", "(pow (add (sqrt (i 2)) (mul (i 2) I)) (i 17))", "(pow (add E (mul pi I)) (i 0))",
@@ -214,6 +220,7 @@ CORPUS = [
     "(pow (add x I) (i 3))", "(pow x y)", "(f1 conjugate x)", "(f1 sign x)", "(f1 gamma (add x I))", "(f1 loggamma x)", "(f1 erf x)",
     "(f1 erfc x)", "(f2 atan2 x y)", "(f2 beta x y)", "(f2 lowergamma x y)", "(f2 uppergamma x y)", "(f2 kronecker_delta x y)",
     "(levi x y z)", "(f1 abs x)", "pi", "(add x I)", "(f1 log x)", "(f1 asin x)", "(cd 3ff0000000000000 4000000000000000)",
+    "(mul zoo pi)", "(mul (mul zoo x) (pow y (i 2)))", "(f1 sin (add pi I))",
 ] + ["(f1 %s (f1 %s x))" % (t, it) for t in TRIG for it in ITRIG]
 
 
@@ -322,6 +329,11 @@ def explore(ctx, drv, model, cases, search=False):
             stats[op]["compared"] += 1
             ctx.cov["evaluations"] += 1
             if canon_pair(lv) != canon_pair(mv):
+                if op == "ND" and any(t in lv + mv for t in ("(Pow (I 1) ", "((I 1) (")):
+                    # pow(1, z) stays the unevaluated 1**z for a Complex z; such factors are never eq to one, so the
+                    # branch taken by bvisit(Add) on an Add BUILT by arithmetic depends on its (unmodelled) hash order
+                    stats[op]["skipped_one_pow_z"] = stats[op].get("skipped_one_pow_z", 0) + 1
+                    continue
                 mismatch(op, i, "%s library: %s\n%s model:   %s" % (op, lv, op, mv), impl[i], m)
         if lf.get("ND", "").startswith("(") and mf.get("NNE") == "0":
             # the model's own no_neg_exp_top on its (equal) trees must agree with the driver's oracle
@@ -374,16 +386,24 @@ def run(ctx):
                        "(denominator not 1, imaginary part not 0, output not eq input); distinct = distinct input dumps")
     ctx.assumptions += [
         "add / mul / pow / div / sub / neg are the model Expr/Arith.v (tied to the library by C03/C04/C07); results outside its "
-        "fragment (EXN 97/98) are skipped and counted per operation as not_modelled",
+        "fragment (EXN 97/98) are skipped and counted per operation as not_modelled; in the theorems their soundness on defined "
+        "operands is a PREMISE (nd_semantics, the hypotheses of C36_pow_number_sound), not proved here",
+        "C36_numer_denom_sound_partial also takes the power laws (u/v)^x = u^x'/v^x' resp. v^x'/u^x' (x', orientation from "
+        "handle_minus) as a premise: proved for integer exponents in every field (C36_numer_denom_int_powers), false for "
+        "non-integer exponents and negative denominators (C36_numer_denom_refuted = known finding C36/nd-value:nonint-pow)",
         "the iteration order of an Add built by intermediate arithmetic (unordered_map) is not modelled: Add dictionaries are compared "
         "sorted; NumerDenomVisitor::bvisit(Add) on such an intermediate Add follows the model's insertion order",
-        "function constructors (sin(), cos(), x.create(..), unevaluated_expr) inside the rewrite_as_* / trig_to_sqrt / conjugate "
-        "results are not modelled: the model emits the sequence of constructor calls, the driver runs it on the library and compares by eq; "
-        "the theorems interpret each constructor call by the mathematical operation (the content of C07/C08)",
+        "function constructors (sin(), cos(), x.create(..), unevaluated_expr, Mul::dict_add_term_new) inside the rewrite_as_* / "
+        "trig_to_sqrt / conjugate results are not modelled: the model emits the sequence of constructor calls, the driver runs it on "
+        "the library and compares by eq; the rule theorems interpret each constructor call by the mathematical operation (the content "
+        "of C07/C08) and cover the RULES, not the traversal of TransformVisitor around them",
+        "complex functions in the specification are given by their real and imaginary parts (RewriteSpec.v) and coincide with the "
+        "standard library's real functions on the real axis (C36_complex_functions_real)",
         "the trigonometric rules of RealImagVisitor and its rational-exponent rule are outside the executable model (proved as identities, "
-        "checked numerically by the oracle)",
+        "checked numerically by the oracle); its Add / Mul rules are tied by exact trees but have no value theorem",
         "numeric oracle: eval_complex_double after substituting doubles at 2 positive real points (numer/denom, real/imag) and 2 non-real "
-        "complex points (rewriting family, conjugate), relative tolerance 1e-7, points where either side is not finite or above 1e6 are skipped",
+        "complex points (rewriting family, conjugate; inputs with symbols only, and not where a function with a branch cut is applied to a "
+        "rewritten subterm), relative tolerance 1e-7, points where either side is not finite or above 1e6 are skipped",
     ]
 
 
